@@ -63,7 +63,18 @@ def compiled_values(pa, d, pairs):
 
 def check_pairs(pa, res, cfg_name, recipe, d, pairs, formula, flags=("sym", "zero")):
     """pairs: list of (u, v).  formula(u, v) -> float | None"""
-    comp = compiled_values(pa, d, pairs)
+    try:
+        comp = compiled_values(pa, d, pairs)
+        for u, v in pairs:
+            d.d(to_unit(u), to_unit(v))
+    except Exception as e:  # noqa - the library raised on a legal configuration
+        res["evaluations"] += 1
+        res["transitions"] += 1
+        res["traces"] += 1
+        res["state_set"].append(h([cfg_name, "raised"]))
+        res["violations"].append({"msg": f"[{cfg_name}] evaluating the dissimilarity raised {type(e).__name__}: {e}",
+                                  "case": {"cfg": cfg_name, "recipe": recipe}, "sig": h([cfg_name, "raised"])})
+        return
     for k, ((u, v), cv) in enumerate(zip(pairs, comp)):
         res["evaluations"] += 1
         res["transitions"] += 2
@@ -130,6 +141,7 @@ def configs(tier):
     out.append(("lev", {"K": 300}))
     out.append(("ord", {}))
     out.append(("num", {}))
+    out.append(("caller_mutates", {"tag": "m"}))
     out.append(("process_state", {"tag": "p"}))
     out.append(("process_state", {"tag": "q", "reverse": True}))
     for a, b, de in itertools.product((0.0, 1.0, 3.0), (0.0, 1.0, 2.0), (1.0, 0.5, 2.0)):
@@ -353,6 +365,27 @@ class Runner:
                 check_pairs(self.pa, self.res, f"process-state {r['k']} {('p=' + str(r['p'])) if 'p' in r else ''} "
                                                f"de={r.get('de', 1.0)} after {'B' if r is ra else 'A'}", r, d, pairs_uv, f)
 
+    def run_caller_mutates(self, tag):
+        """The label collection handed to a label-derived dissimilarity is the caller's object (typically the live
+        continuum.categories): adding a label to it afterwards - one that sorts FIRST - must not change the values
+        for the original names."""
+        from sortedcontainers import SortedSet
+        labels = [f"{tag}cart", f"{tag}cat", f"{tag}dog"]
+        nums = ["2", "5", "30"]
+        for kind, labs, newlab in (("lev", labels, f"{tag}aaa"), ("ord", labels, f"{tag}aaa"), ("num", nums, "1")):
+            live = SortedSet(labs)
+            if kind == "lev":
+                d = self.pa.LevenshteinCategoricalDissimilarity(live)
+            elif kind == "ord":
+                d = self.pa.OrdinalCategoricalDissimilarity(live)
+            else:
+                d = self.pa.NumericalCategoricalDissimilarity(live)
+            before = {(a, b): float(d.d(to_unit((0, 2, a)), to_unit((1, 3, b)))) for a in labs for b in labs}
+            live.add(newlab)  # the caller's continuum got a new category
+            pairs = [((0, 2, a), (1, 3, b)) for a in labs for b in labs]
+            check_pairs(self.pa, self.res, f"caller-mutates {kind}", {"k": kind, "labels": labs}, d, pairs,
+                        lambda u, v, before=before: before[(u[2], v[2])])
+
     def run_comb(self, a, b, de):
         labels = ["x", "y", "z"]
         comps = [("cat default", None), ("cat abs same de", {"k": "abs", "de": de}),
@@ -410,6 +443,8 @@ def replay(case):
         R.run_ord()
     elif name.startswith("num"):
         R.run_num()
+    elif name.startswith("caller-mutates"):
+        R.run_caller_mutates("m")
     elif name.startswith("process-state"):
         R.run_process_state("p")
         R.run_process_state("q", reverse=True)
